@@ -193,11 +193,17 @@ func (o *Out) Write() error {
 		os.Remove(f)
 	}
 	nsh := 0
-	for start := 0; start < len(o.terms) || nsh == 0; start += o.Shard {
-		end := start + o.Shard
-		if end > len(o.terms) {
-			end = len(o.terms)
+	bases := []int{}
+	// a shard holds at most o.Shard cases and (beyond its first case) at most shardBytes of terms:
+	// coqc needs about 80 us per byte of a long byte-string literal
+	const shardBytes = 300000
+	for start := 0; start < len(o.terms) || nsh == 0; {
+		end, sz := start, 0
+		for end < len(o.terms) && end-start < o.Shard && (end == start || sz+len(o.terms[end]) <= shardBytes) {
+			sz += len(o.terms[end])
+			end++
 		}
+		bases = append(bases, start)
 		var sb strings.Builder
 		sb.WriteString("(* written by the harness: inputs and what /repo did on them *)\n")
 		sb.WriteString("From Coq Require Import ZArith String List Bool.\nImport ListNotations.\n")
@@ -225,10 +231,11 @@ func (o *Out) Write() error {
 		if end >= len(o.terms) {
 			break
 		}
+		start = end
 	}
 	meta := map[string]interface{}{
 		"property": o.Prop, "cases": o.descs, "kinds": o.kinds, "distinct": len(o.distinct), "samples": o.Samples,
-		"go_violations": o.GoViol, "switches": o.Switches, "stats": o.Stats, "shards": nsh, "shard_size": o.Shard,
+		"go_violations": o.GoViol, "switches": o.Switches, "stats": o.Stats, "shards": nsh, "shard_size": o.Shard, "shard_bases": bases,
 	}
 	b, err := json.Marshal(meta)
 	if err != nil {
